@@ -20,6 +20,9 @@
 //! the diagnosis `stall:flow-control:{conn,stream,streams}`: when a case does not complete, the endpoints' own qlog
 //! (`sim::PacketTap`) is searched for a sender that stopped at a flow-control limit — bytes / streams sent vs. the last and
 //! the largest MAX_DATA / MAX_STREAM_DATA / MAX_STREAMS it processed and the largest its peer says it sent.  No model is consulted.
+//! `receive-path-blocked`: a datagram waited >= 1 s of virtual time in a socket's buffer before the interface's receive task read
+//! it (`sim::SimIo::poll_recv`, count `rx_wait_max_ms`; healthy: 0 ms) — finding 5, docs/C02.md §10.  Every run ends with the fixed
+//! `REGRESSION` cases (ids 1_000_000 + k), the (seed, case) pairs that exposed finding 5.
 //! Transcript: `cfg`, `wire params …`, C02's application lines, `wire flow <ep> …`, `end`; the driver is C02's.
 use std::{
     collections::{BTreeMap, HashMap},
